@@ -37,12 +37,13 @@ def _eval_assignment_loop(f):
         raise AnalysisError("DiscreteFactor.assignment: decoding loop not found")
     lp = loops[0]
     ivar, cvar = dotted(lp.target.elts[0]), dotted(lp.target.elts[1])
-    rcname = dotted(lp.iter.args[0]) if lp.iter.args else None
-    if rcname is None:
+    from ..util import deep_resolve, single_defs
+    rce = deep_resolve(lp.iter.args[0], single_defs(f)) if lp.iter.args else None
+    if rce is None:
         raise AnalysisError("DiscreteFactor.assignment: cannot read the cardinality order used for decoding")
-    if tm.has(f.node, "_RC = self.cardinality[::-1]", {"_RC": rcname}):
+    if tm.is_(rce, "self.cardinality[::-1]") is not None:
         order = "reversed"
-    elif tm.has(f.node, "_RC = self.cardinality", {"_RC": rcname}) or tm.has(f.node, "_RC = self.cardinality[:]", {"_RC": rcname}):
+    elif tm.is_(rce, "self.cardinality") is not None or tm.is_(rce, "self.cardinality[:]") is not None:
         order = "forward"
     else:
         raise AnalysisError("DiscreteFactor.assignment: cannot read the cardinality order used for decoding")
@@ -117,6 +118,8 @@ def decode(rc):
         FD = fd_calls[-1].targets[0].id
         _, b1 = tm.find(f.node, "_AM = compat_fns.argmax(_FD.values)", {"_FD": FD})
         _, b2 = tm.find(f.node, "_AS = _FD.assignment([_AM])[0]", b1) if b1 is not None else (None, None)
+        if b2 is None:
+            _, b2 = tm.find(f.node, "_AS = _FD.assignment([compat_fns.argmax(_FD.values)])[0]", {"_FD": FD})
         rc.ob(f"{cname}.map_query: arg-max over `{FD}.values`, decoded by `{FD}.assignment`: {b2 is not None}")
         if b2 is None:
             rc.fail(f, f.node, f"{cname}.map_query must take the arg-max over the joint factor's value table and decode it with that same factor", construct=f"{cname} argmax/decode")
@@ -193,7 +196,7 @@ def scope(rc):
     # the decode happens on the restored engine (BP) — order: restore, then decode
     _, bo = tm.find(b.node, "_OM = self.model.copy()")
     init = [n.lineno for n, _ in tm.find_all(b.node, "self.__init__(_OM)", bo)] if bo is not None else []
-    arg = [n.lineno for n, _ in tm.find_all(b.node, "_AM = compat_fns.argmax(_FD.values)")]
+    arg = [n.lineno for n, _ in tm.find_all(b.node, "compat_fns.argmax(_FD.values)", nested=True)]
     if not init or not arg:
         raise AnalysisError("BP.map_query: restore / decode statements not found")
     # the joint that is maximised multiplies every remaining factor once (no value-keyed set of factors on the way)
@@ -227,7 +230,14 @@ def scope(rc):
     # max_marginal: maximises the joint's table
     mm = repo.func(EI, "VariableElimination.max_marginal")
     cm = calls_named(mm, "_variable_elimination")
-    okm = cm and norm(kwarg(cm[0], "operation")) == "'maximize'" and any(tm.has(r.value, "compat_fns.max(_FD.values)", {"_FD": dotted(getattr(cm[0], "_parent", None).targets[0]) if isinstance(getattr(cm[0], "_parent", None), ast.Assign) else "?"}, nested=True) or tm.is_(r.value, "compat_fns.max(_FD.values)", {"_FD": dotted(getattr(cm[0], "_parent", None).targets[0]) if isinstance(getattr(cm[0], "_parent", None), ast.Assign) else "?"}) is not None for r in returns_of(mm) if r.value is not None)
+    from ..util import deep_resolve as _dr, single_defs as _sd
+    okm = False
+    for r in returns_of(mm):
+        if r.value is None:
+            continue
+        bb = tm.is_(_dr(r.value, _sd(mm)), "compat_fns.max(__J.values)")
+        if bb is not None and isinstance(bb["__J"], ast.Call) and call_name(bb["__J"]) == "_variable_elimination" and norm(kwarg(bb["__J"], "operation")) == "'maximize'":
+            okm = True
     rc.ob(f"max_marginal: max-elimination and max of the remaining table: {bool(okm)}")
     if not okm:
         rc.fail(mm, mm.node, "max_marginal = max over the requested variables of the max-eliminated joint", construct="max_marginal")
